@@ -84,12 +84,14 @@ func writeHeaders(w http.ResponseWriter, headers map[string][]string) {
 }
 
 func mergeHeaders(baseHeaders, additionalHeaders map[string][]string) map[string][]string {
+	// header names are case-insensitive: a configured "content-type" replaces the default
+	// "Content-Type" instead of being sent next to it
 	result := make(map[string][]string)
 	for k, v := range baseHeaders {
-		result[k] = v
+		result[http.CanonicalHeaderKey(k)] = v
 	}
 	for key, values := range additionalHeaders {
-		result[key] = values
+		result[http.CanonicalHeaderKey(key)] = values
 	}
 	return result
 }
